@@ -720,6 +720,7 @@ enum LexOp {
     SetFilter(FilterSpec),
     Sublex,
     IntoSub,
+    EmptyF,
     Query,
     Drain,
     Clone(Vec<LexOp>),
@@ -737,6 +738,7 @@ impl LexOp {
             LexOp::SetFilter(_) => "setfilter",
             LexOp::Sublex => "sublex",
             LexOp::IntoSub => "intosub",
+            LexOp::EmptyF => "emptyf",
             LexOp::Query => "query",
             LexOp::Drain => "drain",
             LexOp::Clone(_) => "clone",
@@ -762,6 +764,7 @@ fn parse_lex_op(sx: &Sx) -> Result<LexOp, String> {
             "peek" => Ok(LexOp::Peek),
             "sublex" => Ok(LexOp::Sublex),
             "intosub" => Ok(LexOp::IntoSub),
+            "emptyf" => Ok(LexOp::EmptyF),
             "query" => Ok(LexOp::Query),
             "drain" => Ok(LexOp::Drain),
             other => Err(format!("unknown lexer op `{other}`")),
@@ -784,7 +787,7 @@ fn parse_lex_op(sx: &Sx) -> Result<LexOp, String> {
                     Ok(LexOp::Clone(args.iter().map(parse_lex_op).collect::<Result<_, _>>()?))
                 }
                 // The argument-less ops are also accepted in list form.
-                "next" | "peek" | "sublex" | "intosub" | "query" | "drain" if args.is_empty() => {
+                "next" | "peek" | "sublex" | "intosub" | "emptyf" | "query" | "drain" if args.is_empty() => {
                     parse_lex_op(&Sx::Atom(head.to_string()))
                 }
                 other => Err(format!("unknown lexer op `{other}`")),
@@ -793,16 +796,18 @@ fn parse_lex_op(sx: &Sx) -> Result<LexOp, String> {
     }
 }
 
-/// `OBS`: the six observer calls, spliced.
+/// `OBS`: the eight observer calls, spliced.
 fn lex_obs(l: &Lx) -> String {
     format!(
-        "(ts {}) (ps {}) (cur {}) (pk {}) (emp {}) (flt {})",
+        "(ts {}) (ps {}) (cur {}) (pk {}) (emp {}) (flt {}) (pps {}) (pcur {})",
         r_span(l.token_span()),
         r_span(l.parse_span()),
         r_pos(l.cursor_pos()),
         r_ospan(l.peek_token_span()),
         r_bool(l.is_empty()),
-        r_bool(l.filter().is_some())
+        r_bool(l.filter().is_some()),
+        r_ospan(l.peek_parse_span()),
+        match l.peek_cursor_pos() { Some(p) => r_pos(p), None => "-".to_string() }
     )
 }
 
@@ -850,6 +855,7 @@ fn exec_lex_op(op: &LexOp, slot: &mut Option<Lx>, text: &'static str) -> String 
                 *slot = Some(taken.into_sublexer());
                 "-".to_string()
             }
+            LexOp::EmptyF => r_bool(l.is_empty_with_filter()).to_string(),
             LexOp::Query => "-".to_string(),
             LexOp::Drain => {
                 let items = drain_items(l, text);
